@@ -232,9 +232,13 @@ def wire_host(out):
     from ..engine import Chooser
     from ..seqworld import SeqWorld
     n = 0
-    for sch, host, port, proto, variant in itertools.product(["http", "https"], HOSTS, [None, "80", "443", "8080"], ["h1", "h2"], ["sync", "async"]):
+    for sch, host, port, proto, variant in itertools.product(["http", "https"], HOSTS, [None, "80", "443", "8080"], ["h1", "h2", "h1-fwd"], ["sync", "async"]):
+        if proto == "h1-fwd" and sch != "http":
+            continue
         n += 1
-        ct = {("http", "h1"): "h11", ("http", "h2"): "h2pk", ("https", "h1"): "h11tls", ("https", "h2"): "h2alpn"}[(sch, proto)]
+        ct = {("http", "h1"): "h11", ("http", "h2"): "h2pk", ("https", "h1"): "h11tls", ("https", "h2"): "h2alpn", ("http", "h1-fwd"): "fwd"}[(sch, proto)]
+        if proto == "h1-fwd":
+            proto = "h1"            # through a forwarding proxy: the header list still arrives whole
         u = f"{sch}://{host}" + (f":{port}" if port is not None else "") + "/t/tok"
         ref = reference(u.encode())
         exp = host_header_expected(ref["host"], ref["port"], ref["scheme"])
